@@ -51,7 +51,11 @@ async fn main() {
             }
             "parse" => {
                 let mut panics: Vec<String> = vec![];
+                let only = std::env::var("LINEDRV_ONLY").ok();
                 let mut run = |name: &str, f: &mut dyn FnMut()| {
+                    if only.as_deref().is_some_and(|o| o != name) {
+                        return;
+                    }
                     if let Err(e) = catch_unwind(AssertUnwindSafe(|| f())) {
                         panics.push(format!("{name}: {}", payload(e)));
                     }
@@ -87,6 +91,8 @@ async fn main() {
             }
             _ => {}
         }
+        // flush per input line: when the process dies or hangs, the first unanswered line is the culprit
+        let _ = out.flush();
     }
     let _ = out.flush();
 }
